@@ -585,6 +585,14 @@ class CausalInference(object):
             )
 
         # Step 2: Check if adjustment set is provided, otherwise try calculating it.
+        if adjustment_set is not None:
+            # Accept a single variable name or any iterable of names (e.g. the
+            # frozensets returned by `get_all_backdoor_adjustment_sets`).
+            if isinstance(adjustment_set, str):
+                adjustment_set = {adjustment_set}
+            else:
+                adjustment_set = set(adjustment_set)
+
         if adjustment_set is None:
             do_vars = [var for var, state in do.items()]
             adjustment_set = set(
